@@ -62,10 +62,15 @@ def doubleComma : Text → Bool
 /-- a path / name token: quoted, or free of blanks (guaranteed by `words`) and not empty -/
 def isPathTok (w : Text) : Bool :=
   match w with
-  | '"' :: rest => rest.getLast? == some '"' && rest.length ≥ 2 && varsOk rest
+  | '"' :: rest => rest.getLast? == some '"' && rest.length ≥ 2 && varsOk rest &&
+      (rest.head? == some '/' || rest.head? == some '@')      -- a quoted path still begins with `/` or `@`
   | '/' :: _ => !w.contains '"' && varsOk w && !doubleComma w
   | '@' :: _ => !w.contains '"' && varsOk w && !doubleComma w
   | _ => false
+
+def infixB (p : Text) : Text → Bool
+  | [] => p.isEmpty
+  | c :: cs => p.isPrefixOf (c :: cs) || infixB p cs
 
 /-- permission string: letters of `mrwlk` (plus the append `a`), and at most one exec mode -/
 def readMode (T : Tables) (m : Text) : Option (List Text) :=
@@ -74,7 +79,9 @@ def readMode (T : Tables) (m : Text) : Option (List Text) :=
   let rest := m.filter (fun c => !acc.contains [c])
   if m.isEmpty then none
   else if rest.isEmpty then some (mergeValues T "file" "access" plain [])
-  else if (reqValues T "file" "transition").contains rest then some (mergeValues T "file" "access" (plain ++ [rest]) [])
+  else if (reqValues T "file" "transition").contains rest && infixB rest m then
+    -- the letters of the exec mode stand together (`rPx`, `Pxr`; not `Prx`)
+    some (mergeValues T "file" "access" (plain ++ [rest]) [])
   else none
 
 structure Q where
@@ -203,6 +210,8 @@ def read (T : Tables) (t : Text) : Option Rule :=
   | some ',' =>
     match words t.dropLast with
     | some ws =>
+      -- a word that ends in a comma: the lexer would have ended the rule there (`a,, # c`, `/path, mode,`)
+      if ws.any (fun w => w.getLast? == some ',') then none else
       match readQual 5 {} ws with
       | some (q, body) => readBody T q body
       | none => none
